@@ -203,11 +203,15 @@ pub struct DriverCfg {
     pub extra_poll_pct: u32,
     /// cap on transmits drained per connection per flush round (0 = unlimited)
     pub transmit_cap: usize,
+    /// a driver that does not sleep until the pacing deadline but keeps polling a rate-capped
+    /// connection while its pacing timer is armed, at intervals in which less than half a byte of
+    /// pacing budget accrues
+    pub busy_poll: bool,
 }
 
 impl Default for DriverCfg {
     fn default() -> Self {
-        Self { max_datagrams: 10, batch_inputs: false, timer_late_ns: 0, spurious_timeout_pct: 0, extra_poll_pct: 0, transmit_cap: 0 }
+        Self { max_datagrams: 10, batch_inputs: false, timer_late_ns: 0, spurious_timeout_pct: 0, extra_poll_pct: 0, transmit_cap: 0, busy_poll: false }
     }
 }
 
@@ -220,6 +224,7 @@ impl DriverCfg {
             spurious_timeout_pct: *r.pick(&[0, 0, 10, 50]),
             extra_poll_pct: *r.pick(&[0, 0, 10, 50]),
             transmit_cap: *r.pick(&[0, 0, 1, 4]),
+            busy_poll: false,
         }
     }
 }
@@ -1651,6 +1656,19 @@ impl World {
             // the driver owes the connections another poll; do it 1 µs later
             let t = self.now + 1_000;
             next = Some(next.map_or(t, |n| n.min(t)));
+        }
+        if self.drv.busy_poll {
+            for e in &self.eps {
+                for c in e.conns.values() {
+                    if let Some(bps) = c.tcfg.max_bps {
+                        if !c.c.is_drained() && c.c.verif_probe().timers.iter().any(|t| t.0 == "Pacing") {
+                            let t = self.now + (300_000_000 / bps.max(1)).max(1);
+                            next = Some(next.map_or(t, |n| n.min(t)));
+                            self.mon.cnt.inc("drv.busy_polls");
+                        }
+                    }
+                }
+            }
         }
         match next {
             None => false,
